@@ -192,6 +192,13 @@ def generate(rng, tier):
     # Person, list, stack level (model compared), fnpair and mwpair (both merge styles; oracle only).  Appended last.
     from props import c14_lookalike
     cases += c14_lookalike.cases(rng, tier, good, adm_name)
+    # NAME WORDS THAT CONTAIN THE VOCABULARY OF NAME FORMATTING (c14_fmtvocab.py): the part codes of BibTeX name templates inside
+    # ordinary words and brace groups (`Bell`, `{Bell Labs}`, `{William}`, `{vv}`, `{ff }`, `{, jj}`, `{f.}`), Python placeholders
+    # (`{first}`, `{0}`, `{}`, `%s`, `%(last)s`, `$last`, `${von}`), the attribute names, replacement escapes, and a word that stands
+    # in two parts of the SAME name - as first / von / last / jr words, bare and braced, all comma forms, lists of 1..4 persons.
+    # Person, list, stack level (model compared), fnpair and mwpair (both merge styles; oracle only).  Appended last.
+    from props import c14_fmtvocab
+    cases += c14_fmtvocab.cases(rng, tier, good, adm_name)
     return cases
 
 
@@ -441,6 +448,15 @@ def impl(case):
             rec["tags"].append("lookalike_part:%s" % bits[1])
         if len(bits) > 2:
             rec["tags"].append("lookalike_person_is:%s" % bits[2])
+    voc = case["input"].get("fmtvocab")
+    if voc and isinstance(rec.get("tags"), list):
+        # streams fmtvocab-*: kind of formatting vocabulary / part of the person it stands in / where that person stands in the list
+        bits = voc.split("/")
+        rec["tags"].append("fmtvocab_kind:%s" % bits[0])
+        if len(bits) > 1:
+            rec["tags"].append("fmtvocab_part:%s" % bits[1])
+        if len(bits) > 2:
+            rec["tags"].append("fmtvocab_person_is:%s" % bits[2])
     return rec
 
 
